@@ -110,6 +110,11 @@ Qed.
 Definition at_spaced (sz : szone) (t : Z) : bool :=
   match z_rule sz with Some (inr a) => J.spacing_rule_self a (utc_year t) | _ => true end.
 
+(* lz.rt on a table followed by a rule: the round trip is proved off the excepted seconds only (the
+   judge's lz.rt does not except them; on table-only and rule-only zones neither do the theorems) *)
+Definition rt_excepted (sz : szone) (l : Z) : bool :=
+  match z_trans sz, z_rule sz with _ :: _, Some (inr _) => excepted_wall sz l | _, _ => false end.
+
 Record lookup_ok (zone : timezone) (sz : szone) : Prop := {
   lk_at : forall t o, at_spaced sz t = true -> J.in_dom sz t = true -> zone_off sz t = Some o ->
           exists lt, find_local_time_type zone t = Val (Ok lt) /\ ut_offset lt = o;
@@ -117,7 +122,7 @@ Record lookup_ok (zone : timezone) (sz : szone) : Prop := {
           exists m, find_local_time_type_from_local zone (utc_year w) w = Val (Ok m) /\
                     mlt_list (mlt_map m ut_offset) = l;
   lk_rt : forall t o, J.spacing_ok sz (t + o) = true -> J.in_dom sz t = true -> zone_off sz t = Some o ->
-          J.in_dom sz (t + o) = true -> J.offsets_ok sz = true ->
+          J.in_dom sz (t + o) = true -> J.offsets_ok sz = true -> rt_excepted sz (t + o) = false ->
           exists m, find_local_time_type_from_local zone (utc_year (t + o)) (t + o) = Val (Ok m) /\
                     contains m o /\ (forall o', contains m o' -> In o' (zone_offsets sz)) /\
                     (forall a b, m = MAmbiguous a b -> ut_offset a > ut_offset b) }.
@@ -235,7 +240,7 @@ Qed.
 (* lz.rt *)
 Lemma el_rt zone sz t n : lookup_ok zone sz -> arg_secs (VInt t) = Some n ->
   at_spaced sz t = true ->
-  (forall o, zone_off sz t = Some o -> J.spacing_ok sz (t + o) = true) ->
+  (forall o, zone_off sz t = Some o -> J.spacing_ok sz (t + o) = true /\ rt_excepted sz (t + o) = false) ->
   ev_fine (J.j_rt sz t (op_rt zone n)).
 Proof.
   intros L Ha Hsa Hsp. destruct (arg_secs_spec t n Ha) as [Hn Hw].
@@ -244,7 +249,7 @@ Proof.
   destruct (zone_off sz t) as [o|] eqn:Ho; [|exact I].
   destruct (J.fo_ok o) eqn:Hf; cbn [negb andb]; [|exact I].
   destruct (J.in_dom sz (t + o)) eqn:Hd2; cbn [negb]; [|exact I].
-  specialize (Hsp o eq_refl).
+  destruct (Hsp o eq_refl) as [Hsp' Hexc]. clear Hsp. rename Hsp' into Hsp.
   destruct (lk_at zone sz L t o Hsa Hd Ho) as (lt & Hlt & Ho'). rewrite <- Hw in Hlt.
   apply fo_ok_off in Hf.
   pose proof (in_dom_ts _ _ Hd2) as Hts2.
@@ -253,7 +258,7 @@ Proof.
   rewrite <- Ho' in Hf.
   destruct (utc_wall zone n lt Hn Hlt Hf Hsup) as (w & Hv & Hnw & Hwok & Hww).
   rewrite Hw, Ho' in Hww.
-  destruct (lk_rt zone sz L t o Hsp Hd Ho Hd2 Hoo) as (m & Hm & Hc & Hin & Hord).
+  destruct (lk_rt zone sz L t o Hsp Hd Ho Hd2 Hoo Hexc) as (m & Hm & Hc & Hin & Hord).
   assert (Hoffs : forall o', contains m o' -> off_ok o').
   { intros o' Hc'. apply fo_ok_off. unfold J.offsets_ok in Hoo. rewrite forallb_forall in Hoo. apply Hoo, Hin, Hc'. }
   rewrite <- Hww in Hm.
@@ -282,7 +287,9 @@ Definition covered_op (op : bytes) : bool :=
 Definition spaced_elem (op : bytes) (sz : szone) (x : Z) : bool :=
   if op_is op "lz.at" then at_spaced sz x
   else if op_is op "lz.rt" then
-    at_spaced sz x && match zone_off sz x with Some o => J.spacing_ok sz (x + o) | None => true end
+    at_spaced sz x && match zone_off sz x with
+                      | Some o => J.spacing_ok sz (x + o) && negb (rt_excepted sz (x + o))
+                      | None => true end
   else J.spacing_ok sz x.
 
 Ltac opis := repeat match goal with |- context [op_is ?a ?s] =>
@@ -328,9 +335,12 @@ Proof.
   apply hl_op_is_eq in E4. subst op. rewrite run_rt, (judge_rt _ _ _ sz _ Hd).
   apply (batch_holds _ _ zone); [exact Hz|]. intros x n Hx Ha.
   pose proof (Hsp x Hx) as K. change (spaced_elem B"lz.rt" sz x) with
-    (at_spaced sz x && match zone_off sz x with Some o => J.spacing_ok sz (x + o) | None => true end) in K.
+    (at_spaced sz x && match zone_off sz x with
+                       | Some o => J.spacing_ok sz (x + o) && negb (rt_excepted sz (x + o))
+                       | None => true end) in K.
   apply andb_prop in K. destruct K as [K1 K2].
-  apply (el_rt zone sz x n L Ha K1). intros o Ho. rewrite Ho in K2. exact K2.
+  apply (el_rt zone sz x n L Ha K1). intros o Ho. rewrite Ho in K2. apply andb_prop in K2.
+  destruct K2 as [K2 K3]. split; [exact K2|]. destruct (rt_excepted sz (x + o)); [discriminate|reflexivity].
 Qed.
 
 (* lz.env: lz.at (direction 0) / lz.loc (direction 1) through the public route *)
